@@ -1,7 +1,9 @@
 (* C04 — a restart at any checkpoint resumes changes without redoing finished work.
    This file holds the property theorems only. Model: models/Restart.v (TaskRunner.Ensure/run/mustWait/tryUndo and the
    single-lane abort of overlord/state/taskrunner.go, with persist/reload; self-contained, not TaskEngine.v).
-   An event list is any sequence of Ensure passes, handler completions and restarts (ERestart anywhere, any number). *)
+   An event list is any sequence of Ensure passes, handler completions, graceful stops (EStop = TaskRunner.Stop with the
+   handlers in flight honouring their tombs: the cancellation error counts as Retry in both directions, the task stays Doing /
+   Undoing) and restarts (ERestart = reload of the last payload), anywhere, any number. *)
 From Coq Require Import List NArith Bool.
 Import ListNotations.
 Require Import V.lib.Bytes V.models.Restart V.gen.UnlockOrder V.proofs.RestartProofs V.proofs.RestartTieProofs.
@@ -43,6 +45,13 @@ Theorem C04_same_outcome : forall c s evs, NoDup (map t_id (tasks s)) ->
   eqv (run_events c s (ERestart :: EEnsure :: evs)) (run_events c s (EEnsure :: evs)).
 Proof. exact same_outcome. Qed.
 Print Assumptions C04_same_outcome.
+
+(* the same for a graceful stop before the process goes away: TaskRunner.Stop, then the restart *)
+Theorem C04_same_outcome_stop : forall c s evs, NoDup (map t_id (tasks s)) ->
+  (forall id, mem id (running s) = true -> status_of (tasks s) id = 3 \/ status_of (tasks s) id = 7) ->
+  eqv (run_events c s (EStop :: ERestart :: EEnsure :: evs)) (run_events c s (EEnsure :: evs)).
+Proof. exact same_outcome_stop. Qed.
+Print Assumptions C04_same_outcome_stop.
 
 (* in addition, on a complete finite domain and against the fixed round policy itself (no Ensure inserted in the baseline):
    all chains of at most 3 tasks with any extra edges to earlier tasks, all 64 handler configurations, every one of the
